@@ -88,6 +88,9 @@ fn value_of(lit: &str) -> Option<f64> {
 }
 
 pub fn run(ctx: &Ctx) {
+    // the watchdog's clock also covers the harness's own oracle work (reference models, DOM enumeration);
+    // the limit is generous so that machine load cannot turn a slow case into a verdict
+    ctx.hang_limit_s.store(300, std::sync::atomic::Ordering::Relaxed);
     // ---- printing -------------------------------------------------------------------
     let lits = lattice(ctx);
     let sub = "print";
